@@ -148,6 +148,11 @@ def run(ctx):
                         bad.append("%s at %s" % (x["op"], H.loc(x)))
         ctx.inst("C15.R5", "%s#accumulation" % name, not bad, "%d hand-written accumulation(s); differences / quotients of running values: %s" % (loops, bad or "none"), H.loc(a["body"]))
 
+    # ---- R6 `f(...xs)` inside a function sees the same xs as `f(xs)`
+    ctx.rule("C15.R6", "inside a function, the spread form `sum(...xs)` reads the same xs as `sum(xs)`: the capture analysis visits the operand of a spread and every call argument", floor=2)
+    from rules import c04 as c04_
+    c04_.free_variable_rule(ctx, "C15.R6", core, only=lambda k: k.startswith("recurses-into=Expr::Spread") or k.startswith("recurses-into=Expr::Call"))
+
     # ---- R4 both calling conventions are admitted by the arity table
     ctx.rule("C15.R4", "the arity table admits both calling conventions for each of min max avg sum prod median: any number of arguments >= 1 (one list, one number, or several numbers)", floor=6)
     from rules import c01
